@@ -307,6 +307,10 @@ func probe(et *etype, x interface{}) (string, string) {
 		}
 		total := 1
 		for _, d := range o.Dims {
+			if d > probeCap {
+				total = probeCap + 1 // too large to print (also guards products that overflow or vanish)
+				break
+			}
 			total *= d
 		}
 		if s, ok := x.(fmt.Stringer); ok && total <= probeCap {
